@@ -312,6 +312,10 @@ class CodeGenerator(NodeVisitor):
         self.filename = filename
         self.stream = stream
         self.created_block_context = False
+
+        # the number of Python loops around the statement being compiled,
+        # within the current function
+        self._loop_depth = 0
         self.defer_init = defer_init
         self.optimizer: Optimizer | None = None
 
@@ -683,7 +687,11 @@ class CodeGenerator(NodeVisitor):
             self.outdent()
         self.pop_parameter_definitions()
 
+        # The body is a function of its own, an enclosing loop can't be
+        # continued or left from inside it.
+        loop_depth, self._loop_depth = self._loop_depth, 0
         self.blockvisit(node.body, frame)
+        self._loop_depth = loop_depth
         self.return_buffer_contents(frame, force_unescaped=True)
         self.leave_frame(frame, with_python_scope=True)
         self.outdent()
@@ -1298,7 +1306,9 @@ class CodeGenerator(NodeVisitor):
         if node.else_:
             # Set at the start so that break and continue can't skip it.
             self.writeline(f"{iteration_indicator} = 0")
+        self._loop_depth += 1
         self.blockvisit(node.body, loop_frame)
+        self._loop_depth -= 1
         self.outdent()
         if filter_gen is not None:
             self.outdent()
@@ -1976,9 +1986,13 @@ class CodeGenerator(NodeVisitor):
         self.write(self.derive_context(frame))
 
     def visit_Continue(self, node: nodes.Continue, frame: Frame) -> None:
+        if not self._loop_depth:
+            self.fail("'continue' outside of a loop body", node.lineno)
         self.writeline("continue", node)
 
     def visit_Break(self, node: nodes.Break, frame: Frame) -> None:
+        if not self._loop_depth:
+            self.fail("'break' outside of a loop body", node.lineno)
         self.writeline("break", node)
 
     def visit_Scope(self, node: nodes.Scope, frame: Frame) -> None:
